@@ -11,6 +11,9 @@
   * `comp` parts are `(lo, hi, part)` in *dict insertion order* (that order is behaviour: `symbols_of`
     walks `parts.values()`); `smask` is not stored: on well-formed comps it is determined by the parts
     (the K-tie checks this on every comp dumped from the real code);
+  * `slc` stores `ety`: what `slc.setref` or-ed into its etype *at construction* (0 nothing, 1 the sliced
+    object was a register, 2 an external) — `_is_reg`/`_is_ext` of a slice never change afterwards, even
+    when `simplify` replaces `x`;
   * `op`/`uop` store `prop` as computed by the constructor (`type | l.prop | r.prop`);
   * `mem` / `ptr` are carried for the mapper models (C02, C09); the algebra treats them as opaque.
 -/
@@ -67,7 +70,7 @@ inductive Expr where
   | cst (v size : Nat) (sf : Bool)
   | reg (ref : String) (size : Nat) (sf : Bool)
   | ext (ref : String) (size : Nat) (sf : Bool)
-  | slc (x : Expr) (pos size : Nat) (sf : Bool) (ref : Option String)
+  | slc (x : Expr) (pos size : Nat) (sf : Bool) (ref : Option String) (ety : Nat)
   | comp (size : Nat) (sf : Bool) (parts : List (Nat × Nat × Expr))
   | tst (t l r : Expr) (size : Nat) (sf : Bool)
   | op (o : Op) (l r : Expr) (size : Nat) (sf : Bool) (prop : Nat)
@@ -85,12 +88,12 @@ namespace Expr
 
 /-- `e.size` -/
 def size : Expr → Nat
-  | cst _ s _ | reg _ s _ | ext _ s _ | slc _ _ s _ _ | comp s _ _ | tst _ _ _ s _ | op _ _ _ s _ _
+  | cst _ s _ | reg _ s _ | ext _ s _ | slc _ _ s _ _ _ | comp s _ _ | tst _ _ _ s _ | op _ _ _ s _ _
   | uop _ _ s _ _ | ptr _ _ _ s _ | mem _ s _ _ _ | vec _ s _ | vecw _ s _ | top s _ => s
 
 /-- `e.sf` -/
 def sf : Expr → Bool
-  | cst _ _ f | reg _ _ f | ext _ _ f | slc _ _ _ f _ | comp _ f _ | tst _ _ _ _ f | op _ _ _ _ f _
+  | cst _ _ f | reg _ _ f | ext _ _ f | slc _ _ _ f _ _ | comp _ f _ | tst _ _ _ _ f | op _ _ _ _ f _
   | uop _ _ _ f _ | ptr _ _ _ _ f | mem _ _ f _ _ | vec _ _ f | vecw _ _ f | top _ f => f
 
 /-- `e.sf = f` (in-place write in the code; functional here). -/
@@ -98,7 +101,7 @@ def setSf (f : Bool) : Expr → Expr
   | cst v s _ => cst v s f
   | reg n s _ => reg n s f
   | ext n s _ => ext n s f
-  | slc x p s _ r => slc x p s f r
+  | slc x p s _ r k => slc x p s f r k
   | comp s _ ps => comp s f ps
   | tst t l r s _ => tst t l r s f
   | op o l r s _ p => op o l r s f p
@@ -134,14 +137,19 @@ def isDef (e : Expr) : Bool := !e.isTop
 def isReg : Expr → Bool
   | reg .. => true
   | ext .. => true
-  | slc (reg ..) .. => true
-  | slc (ext ..) .. => true
+  | slc _ _ _ _ _ k => k != 0
   | _ => false
 /-- `_is_ext` -/
 def isExt : Expr → Bool
   | ext .. => true
-  | slc (ext ..) .. => true
+  | slc _ _ _ _ _ k => k == 2
   | _ => false
+
+/-- the etype bits a new `slc` of `x` inherits (`slc.setref`). -/
+def slcEty : Expr → Nat
+  | reg .. => 1
+  | ext .. => 2
+  | _ => 0
 
 /-- `2^n - 1` -/
 def mask (n : Nat) : Nat := 2 ^ n - 1
@@ -190,7 +198,7 @@ def wf : Expr → Bool
   | cst v s _ => decide (0 < s) && decide (v < 2 ^ s)
   | reg _ s _ => decide (0 < s)
   | ext _ s _ => decide (0 < s)
-  | slc x p s _ _ => wf x && decide (0 < s) && decide (p + s ≤ x.size)
+  | slc x p s _ _ _ => wf x && decide (0 < s) && decide (p + s ≤ x.size)
   | comp s _ ps => compWF s ps && wfParts ps
   | tst t l r s _ => wf t && wf l && wf r && decide (t.size = 1) && decide (l.size = s) && decide (r.size = s)
   | op o l r s _ _ =>
